@@ -28,11 +28,12 @@ AREA = "Rewrites"
 P = "Arc.Rewrites.Props"
 THEOREMS = [(P, n) for n in (
     "C17_time_bucket_eq", "C17_time_bucket_origin_eq", "C17_date_trunc_eq", "C17_month_unrewritten", "C17_rounding_exact",
-    "C17_origin_class_refuted", "C17_week_refuted", "C17_date_trunc_week_refuted", "C17_origin_fraction_refuted",
+    "C17_origin_class_refuted", "C17_week_refuted", "C17_date_trunc_week_refuted",
+    "C17_origin_fraction_unrewritten", "C17_origin_fraction_guard_needed",
     "C17_subsecond_refuted", "C17_pre_epoch_refuted", "C17_before_origin_refuted",
     "C17_url_canonical_replace_eq", "C17_url_canonical_extract_eq",
     "C17_url_nonmatching_refuted", "C17_url_pattern_refuted", "C17_url_empty_host_refuted",
-    "C17_like_no_or_sound", "C17_like_opt1_sound", "C17_like_or_refuted", "C17_like_quote_refuted")]
+    "C17_like_sound", "C17_like_opt1_sound", "C17_like_opt2_sound")]
 MODULES = [P]
 TIE_NAME = ("C17 correspondence (api.rewriteTimeBucket/rewriteDateTrunc/RewriteRegexToStringFuncs/"
             "OptimizeLikePatterns + real DuckDB vs Arc.Rewrites.Model)")
@@ -142,7 +143,7 @@ def time_exprs(rng, tier):
     ex.append({"kind": "tb3", "amount": 1, "unit": "hour", "origin": 1704069000, "frac": 500000})     # witness: origin 00:30:00.5
     ex.append({"kind": "tb3", "amount": 10, "unit": "second", "origin": 1704069000, "frac": 250000, "layout": "%Y-%m-%dT%H:%M:%SZ"})
     ex.append({"kind": "tb3", "amount": 1, "unit": "day", "origin": -86400, "frac": 1})
-    n_extra = 6 if tier == "quick" else 60
+    n_extra = 6 if tier == "quick" else 40
     for _ in range(n_extra):
         u = rng.choice(["second", "minute", "hour", "day", "week"])
         a = rng.choice([1, 2, 3, 5, 6, 8, 12, 20, 24, 36, 90, 100, 281, 1000, rng.randrange(1, 5000)])
@@ -176,7 +177,7 @@ def time_exprs(rng, tier):
 
 def time_rows(rng, tier, exprs):
     rows = list(WITNESS_T) + [None, 0, -1, 1, G * MICROS, G * MICROS - 1]
-    n = 200 if tier == "quick" else 3000
+    n = 200 if tier == "quick" else 1200
     widths = sorted({e["amount"] * UNIT_S[e["unit"]] for e in exprs if e["kind"] in ("tb2", "tb3") and UNIT_S[e["unit"]]
                      and e["amount"] < 10 ** 6} | {1, 60, 3600, 86400, 604800})
     bases = [0, G, 1704067200, 1704069000, 86400 * 365 * 200, -86400 * 365 * 100, 4 * 10 ** 9]
@@ -208,8 +209,6 @@ def time_class(e, t):
     k = e["kind"]
     unit = e["unit"]
     s = (e["amount"] if k != "dt" else 1) * UNIT_S[unit]
-    if k == "tb3" and e.get("frac"):
-        return "time-bucket-origin-fractional-second"
     if unit == "week" and k in ("tb2", "dt"):
         return "time-unit-week"
     if k == "tb2" and s and G % s != 0:
@@ -331,7 +330,7 @@ def url_patterns(rng, tier):
         ("extract", ("seq", [("bol",), SCHEME, ("grp", 1, ("plus", ("set", False, [("a", "z"), (".", ".")])))]), False, "no-noslash"),
         ("replace", ("seq", [("bol",), SCHEME, ("grp", 1, ("plus", ("set", False, [("a", "z"), ("0", "9"), (".", ".")]))), ("star", ("any",))]), False, "no-noslash"),
     ]
-    n_rand = 6 if tier == "quick" else 60
+    n_rand = 6 if tier == "quick" else 40
     for _ in range(n_rand):
         parts = []
         if rng.random() < 0.7:
@@ -373,7 +372,7 @@ def url_rows(rng, tier):
     wwws = ["", "", "www.", "www.", "WWW.", "www", "www.www."]
     hosts = ["", "x.com", "a", "sub.d.org", "www.", "h:8080", "ex ample", "xn--bcher-kva.example", "w", "1.2.3.4"]
     rests = ["", "/", "/p", "/p/q?x=1", "/a\nb", "?q", "//", "/https://www.y.org/z", "\n", "/\t"]
-    n = 130 if tier == "quick" else 1500
+    n = 130 if tier == "quick" else 800
     seen = set(r for r in rows if r is not None)
     while len(rows) < n:
         if rng.random() < 0.85:
@@ -518,7 +517,7 @@ def clause_coq(cl):
 def like_rows(rng, tier):
     vals = [None, "", "x", "xx", "axc", "1", "like", "c", "'x", "x'x", "p", "p'x"]
     rows = [["x", "0", "", None, None], ["p", None, "z", None, None], ["p'x", None, "z", None, None]]   # witness rows of the two LIKE refutations
-    n = 70 if tier == "quick" else 400
+    n = 70 if tier == "quick" else 200
     seen = {tuple(r) for r in rows}
     while len(rows) < n:
         r = [rng.choice(vals) for _ in range(5)]
@@ -570,14 +569,32 @@ def table_steps(plan):
     return st
 
 
+def load_corpus():
+    """corpus/C17/*.json: regression witnesses of fixed findings and minimised past disagreements."""
+    def tup(x):
+        return tuple(tup(y) for y in x) if isinstance(x, list) else x
+    d = os.path.join(vlib.ROOT, "corpus", "C17")
+    tex, cls = [], []
+    for fn in sorted(os.listdir(d)) if os.path.isdir(d) else []:
+        if not fn.endswith(".json"):
+            continue
+        for e in json.load(open(os.path.join(d, fn))).get("cases", []):
+            if e.get("kind") == "time":
+                tex.append(dict(e["expr"]))
+            elif e.get("kind") == "like":
+                cls.append(([[{"negs": f["negs"], "body": tup(f["body"])} for f in ch] for ch in e["clause"]], e.get("tail", 0)))
+    return tex, cls
+
+
 def make_plan(rng, tier):
-    texprs = time_exprs(rng, tier)
+    corpus_t, corpus_l = load_corpus()
+    texprs = corpus_t + time_exprs(rng, tier)
     trows = time_rows(rng, tier, texprs)
     upats = url_patterns(rng, tier)
     urows = url_rows(rng, tier)
     lrows = like_rows(rng, tier)
-    ncl = 260 if tier == "quick" else 3000
-    clauses = [(WITNESS_CLAUSE, t) for t in range(4)] + [(WITNESS_QUOTE, t) for t in range(2)] + [(gen_clause(rng), rng.randrange(4)) for _ in range(ncl)]
+    ncl = 260 if tier == "quick" else 1500
+    clauses = corpus_l + [(WITNESS_CLAUSE, t) for t in range(4)] + [(WITNESS_QUOTE, t) for t in range(2)] + [(gen_clause(rng), rng.randrange(4)) for _ in range(ncl)]
     items = []
     for e in texprs:
         items.append({"kind": "time", "expr": e, "src": texpr_text(e), "fn": "tbdt", "emit_only": bool(e.get("emit_only"))})
@@ -835,11 +852,14 @@ def evaluate(plan, name):
             "FReplace" if p["fn"] == "replace" else "FExtract", "true" if p["shape_ok"] else "false", cstr(p["pat"]),
             re_coq(p["ast"]), "true" if changed else "false", cstr(it["out"]) if changed else '""',
             ";".join(uobs_coq(v, a, b) for v, (a, b) in zip(urows, obs))))
-    body += chunked("ucases", "ucase", uterms, 4)
-    body += "Definition u_emit := Eval vm_compute in vidx ucase_emit_agrees 0%N ucases.\nPrint u_emit.\n"
-    body += "Definition u_dis := Eval vm_compute in vflat (fun c => match uc_obs c with [] => [] | _ => ucase_disagree urows c end) 0%N ucases.\nPrint u_dis.\n"
-    body += "Definition u_orf := Eval vm_compute in vflat (fun c => match uc_obs c with [] => [] | _ => ucase_oraclefail urows c end) 0%N ucases.\nPrint u_orf.\n"
-    jobs.append((name + "_url", body, ["u_emit", "u_dis", "u_orf"], 0))
+    urows_def = body
+    UCH = 12
+    for off in range(0, len(uterms), UCH):
+        body = urows_def + chunked("ucases", "ucase", uterms[off:off + UCH], 4)
+        body += "Definition u_emit := Eval vm_compute in vidx ucase_emit_agrees 0%N ucases.\nPrint u_emit.\n"
+        body += "Definition u_dis := Eval vm_compute in vflat (fun c => match uc_obs c with [] => [] | _ => ucase_disagree urows c end) 0%N ucases.\nPrint u_dis.\n"
+        body += "Definition u_orf := Eval vm_compute in vflat (fun c => match uc_obs c with [] => [] | _ => ucase_oraclefail urows c end) 0%N ucases.\nPrint u_orf.\n"
+        jobs.append((name + "_url_%d" % off, body, ["u_emit", "u_dis", "u_orf"], off))
     r["uit"] = uit
     # ---- like
     lit_ = [it for it in items if it["kind"] == "like"]
@@ -865,7 +885,7 @@ def evaluate(plan, name):
     from concurrent.futures import ThreadPoolExecutor
     with ThreadPoolExecutor(max_workers=8) as ex:
         results = list(ex.map(lambda j: coq_eval_lists(j[0], j[1], j[2]), jobs))
-    r.update({"t_emit": [], "t_dis": [], "t_orf": []})
+    r.update({"t_emit": [], "t_dis": [], "t_orf": [], "u_emit": [], "u_dis": [], "u_orf": []})
     for (jn, _, labels, off), rr in zip(jobs, results):
         if "_like_" in jn:
             l_dis += [off + x for x in rr["l_dis"]]
@@ -874,6 +894,10 @@ def evaluate(plan, name):
             r["t_emit"] += [off + x for x in rr["t_emit"]]
             r["t_dis"] += [off * 1000000 + x for x in rr["t_dis"]]
             r["t_orf"] += [off * 1000000 + x for x in rr["t_orf"]]
+        elif "_url_" in jn:
+            r["u_emit"] += [off + x for x in rr["u_emit"]]
+            r["u_dis"] += [off * 1000000 + x for x in rr["u_dis"]]
+            r["u_orf"] += [off * 1000000 + x for x in rr["u_orf"]]
         else:
             r.update(rr)
     r["l_dis"], r["l_orf"], r["lit"] = l_dis, l_orf, lit_
@@ -964,7 +988,7 @@ def report(res, plan, ev, failed):
     ldis = set(ev["l_dis"])
     for i in ev["l_orf"]:
         it = lit_[i]
-        sig = "like-literal-starting-with-quote" if quote_trigger(it["clause"]) else ("like-or" if len(it["clause"]) >= 2 else None)
+        sig = None        # C17_like_sound: the optimiser changes no filter decision, for any clause
         o1, o2 = it["obs"]
         w = {"kind": "like", "sql": it["src"], "rewritten": it["out"], "rows_original": o1, "rows_rewritten": o2,
              "first_differing_row": next((dict(zip(COLS, lrows[k])) for k in sorted(set(o1 or []) ^ set(o2 or [])) if k < len(lrows)), None)}
@@ -1083,6 +1107,6 @@ def replay(res, path):
         row = (qs[0].get("rows") or [[None, None]])[0] if not qs[0].get("err") else [qs[0]["err"], None]
         print("DuckDB original:", row[0], "| rewritten:", row[1])
         return 1 if row[0] != row[1] else 0
-    a, b = qs[0].get("rows") or qs[0].get("err"), qs[1].get("rows") or qs[1].get("err")
+    a, b = qs[0].get("err") or qs[0].get("rows") or [], qs[1].get("err") or qs[1].get("rows") or []
     print("DuckDB rows original:", a, "| rewritten:", b)
     return 1 if a != b else 0
